@@ -34,6 +34,8 @@ func (s *Handler) Send(eventType string, data string) {
 	for _, f := range s.requests {
 		f := f
 		go func(f chan event) {
+			defer verifRecover(f)
+			verifYield("deliver", 0, f)
 			f <- event{
 				Type: eventType,
 				Data: data,
@@ -54,7 +56,9 @@ func (s *Handler) ServeHTTP(w http.ResponseWriter, r *http.Request) {
 	events := make(chan event)
 	s.requests[id] = events
 	s.m.Unlock()
+	verifYield("registered", id, events)
 	defer func() {
+		verifYield("exit", id, events)
 		s.m.Lock()
 		defer s.m.Unlock()
 		delete(s.requests, id)
